@@ -430,6 +430,21 @@ class Interp:
             it = self.expr(s.iter, env, cls)
             if isinstance(it, dict):
                 it = list(it.keys())
+            if type(it) is Opaque:
+                # a collection of unknown content: zero, one or two elements of unknown identity (bounded unrolling)
+                try:
+                    n = 0
+                    while n < 2 and self.chooser.choose(f"{U(s.iter)} has element #{n}"):
+                        self.assign(s.target, Opaque(f"{it.text}#{n}"), env, cls)
+                        n += 1
+                        try:
+                            self.block(s.body, env, cls)
+                        except _Continue:
+                            continue
+                    self.block(s.orelse, env, cls)
+                except _Break:
+                    pass
+                return
             if isinstance(it, (Opaque, Sym, Tmpl)) or not hasattr(it, "__iter__"):
                 raise Unsupported(f"iteration over {it!r} in {U(s.iter)}")
             try:
